@@ -16,6 +16,7 @@ type c18Avoid struct {
 	trailingDesc  bool // query path ending in a descent
 	keywordStr    bool // the strings true / false / null
 	numberLikeStr bool // strings that read as numbers
+	wildDesc      bool // a wildcard immediately followed by a descent
 	longFloat     bool // floats ojg holds as json.Number (18 or more fraction digits)
 }
 
@@ -277,6 +278,9 @@ func (g *c18Gen) queryPath(root any) ppath {
 		}
 		if s.kind == 'd' && len(p) > 0 && p[len(p)-1].kind == 'd' {
 			s = pstep{kind: '*'}
+		}
+		if g.avoid.wildDesc && s.kind == 'd' && len(p) > 0 && p[len(p)-1].kind == '*' {
+			s = pstep{kind: 'k', key: g.key()}
 		}
 		p = append(p, s)
 	}
